@@ -1408,3 +1408,17 @@ def s_const_map(m, args, kw, node):
     """const_map(v): a total map that sends every key to v (resets a ghost map)"""
     v = args[0]
     return SymMap(S.Int, None, lambda k: z3.BoolVal(True), lambda k, v=v: v, z3.IntVal(0))
+
+
+@specfn("ambient_reads")
+def s_ambient_reads(m, args, kw, node):
+    """number of reads of process-global nondeterminism (global RNGs) on this path"""
+    return len(m.path_ambient)
+
+
+@specfn("seed_of")
+def s_seed_of(m, args, kw, node):
+    o = m.force(args[0], node)
+    if isinstance(o, ExtObj) and o.kind == "rng":
+        return o.data.get("seed")
+    raise Unsupported("seed_of(%r)" % (o,), node)
